@@ -91,14 +91,24 @@ pub open spec fn dh_valid(id: int, sk: Seq<u8>, pk: Seq<u8>) -> bool { if id == 
 
 // what a primitive *name* in a Noise protocol name stands for: every backend that provides e.g. DHChoice::Curve25519
 // must provide the same function with the same lengths (assumed contract of CryptoResolver implementations)
-pub uninterp spec fn spec_dh_id(c: crate::params::DHChoice) -> int;
-pub uninterp spec fn spec_dh_pl(c: crate::params::DHChoice) -> int;
-pub uninterp spec fn spec_dh_dl(c: crate::params::DHChoice) -> int;
-pub uninterp spec fn spec_dh_prl(c: crate::params::DHChoice) -> int;
-pub uninterp spec fn spec_hash_id(c: crate::params::HashChoice) -> int;
-pub uninterp spec fn spec_hash_hl(c: crate::params::HashChoice) -> int;
-pub uninterp spec fn spec_hash_bl(c: crate::params::HashChoice) -> int;
-pub uninterp spec fn spec_cipher_id(c: crate::params::CipherChoice) -> int;
+pub uninterp spec fn other_dh_choice(c: crate::params::DHChoice, what: int) -> int;
+pub uninterp spec fn other_cipher_choice(c: crate::params::CipherChoice) -> int;
+pub open spec fn spec_dh_id(c: crate::params::DHChoice) -> int { match c { crate::params::DHChoice::Curve25519 => 1, _ => other_dh_choice(c, 0) } }
+pub open spec fn spec_dh_pl(c: crate::params::DHChoice) -> int { match c { crate::params::DHChoice::Curve25519 => 32, _ => other_dh_choice(c, 1) } }
+pub open spec fn spec_dh_dl(c: crate::params::DHChoice) -> int { match c { crate::params::DHChoice::Curve25519 => 32, _ => other_dh_choice(c, 2) } }
+pub open spec fn spec_dh_prl(c: crate::params::DHChoice) -> int { match c { crate::params::DHChoice::Curve25519 => 32, _ => other_dh_choice(c, 3) } }
+pub open spec fn spec_hash_id(c: crate::params::HashChoice) -> int {
+    match c { crate::params::HashChoice::SHA256 => 1, crate::params::HashChoice::SHA512 => 2, crate::params::HashChoice::Blake2s => 3, crate::params::HashChoice::Blake2b => 4 }
+}
+pub open spec fn spec_hash_hl(c: crate::params::HashChoice) -> int {
+    match c { crate::params::HashChoice::SHA256 => 32, crate::params::HashChoice::SHA512 => 64, crate::params::HashChoice::Blake2s => 32, crate::params::HashChoice::Blake2b => 64 }
+}
+pub open spec fn spec_hash_bl(c: crate::params::HashChoice) -> int {
+    match c { crate::params::HashChoice::SHA256 => 64, crate::params::HashChoice::SHA512 => 128, crate::params::HashChoice::Blake2s => 64, crate::params::HashChoice::Blake2b => 128 }
+}
+pub open spec fn spec_cipher_id(c: crate::params::CipherChoice) -> int {
+    match c { crate::params::CipherChoice::ChaChaPoly => 1, crate::params::CipherChoice::AESGCM => 2, _ => other_cipher_choice(c) }
+}
 // randomness model: an RNG is a hidden state; the bytes it returns and its next state are functions of that state
 pub uninterp spec fn gen_bytes(rng_state: int, n: int) -> Seq<u8>;
 #[verifier::opaque]
